@@ -49,6 +49,9 @@ Fixpoint strip_groups (e : expr) : expr :=
   | _ => e
   end.
 
+Definition strip_groups_stmt (s : stmt) : stmt :=
+  match s with SExpr e => SExpr (strip_groups e) | _ => s end.
+
 (* The assembled expression trees C03 quantifies over (function-free fragment):
    binary, unary, postfix and assignment nodes take ARBITRARY operands; callee and
    object positions hold call-level-or-tighter expressions; assignment / ++ / --
